@@ -248,6 +248,7 @@ func VerifH_slh_lengths() {
 // ---- C20: randomized SLH-DSA signing hands one fresh n-byte draw to the internal signer;
 // deterministic signing uses PK.seed; key generation draws three n-byte seeds.
 func VerifH_c20_slh_sign() {
+	verifrt.EngineOnly()
 	p := newParams(pickShape(), stubHashes(func(*address, []byte) {}, func(*address) {}, nil))
 	var gotRnd, gotMsg []byte
 	verifrt.Summarize("slhdsa.SecretKey).signInternal", func(sk *SecretKey, msg []byte, addrnd []byte) []byte {
@@ -274,6 +275,7 @@ func VerifH_c20_slh_sign() {
 }
 
 func VerifH_c20_slh_keygen() {
+	verifrt.EngineOnly()
 	p := newParams(pickShape(), stubHashes(func(*address, []byte) {}, func(*address) {}, nil))
 	var seeds [3][]byte
 	verifrt.Summarize("slhdsa.params).slhKeygenInternal", func(pp *params, skSeed, skPrf, pkSeed []byte) (*SecretKey, *PublicKey) {
@@ -287,5 +289,56 @@ func VerifH_c20_slh_keygen() {
 		verifrt.Assert(len(verifrt.DrawBytes(d0+i)) == int(p.n), "each seed is a full n-byte draw")
 		verifrt.AssertEq(seeds[i], verifrt.DrawBytes(d0+i), "SK.seed, SK.prf, PK.seed are three separate draws")
 	}
+	verifrt.Reach("end")
+}
+
+// External API framing (FIPS 205 Algorithms 22-24): contexts longer than 255 bytes are
+// refused by Sign, SignDeterministic and Verify; otherwise M' = 0 || len(ctx) || ctx || M.
+func VerifH_slh_context() {
+	var sk *SecretKey
+	var pk *PublicKey
+	var gotSign, gotVerify []byte
+	if verifrt.Symbolic() {
+		p := newParams(pickShape(), stubHashes(func(*address, []byte) {}, func(*address) {}, nil))
+		verifrt.Summarize("slhdsa.SecretKey).signInternal", func(sk *SecretKey, msg []byte, addrnd []byte) []byte {
+			gotSign = msg
+			return []byte{1}
+		})
+		verifrt.Summarize("slhdsa.PublicKey).verifyInternal", func(pk *PublicKey, msg []byte, sig []byte) error {
+			gotVerify = msg
+			return nil
+		})
+		sk = &SecretKey{skSeed: make([]byte, p.n), skPrf: make([]byte, p.n), pkSeed: make([]byte, p.n), pkRoot: make([]byte, p.n), p: p}
+		pk = sk.PublicKey()
+	} else {
+		// native replay: a real key of the fastest parameter set
+		p := SLH_DSA_SHAKE_128f
+		sk, pk = p.slhKeygenInternal(make([]byte, p.n), make([]byte, p.n), make([]byte, p.n))
+	}
+	cl := [...]int{0, 1, 2, 254, 255, 256, 257, 511, 512}[verifrt.Choice("cl", 9)]
+	ctx := make([]byte, cl)
+	if cl > 0 {
+		ctx[0] = verifrt.Byte("c0")
+		ctx[cl-1] = verifrt.Byte("cN")
+	}
+	m := verifrt.Bytes("m", verifrt.Choice("ml", 3))
+	want := append(append([]byte{0, byte(cl)}, ctx...), m...)
+	_, e1 := sk.Sign(m, ctx)
+	if e1 == nil && verifrt.Symbolic() {
+		verifrt.AssertEq(gotSign, want, "Sign: M' = 0 || len(ctx) || ctx || M")
+	}
+	_, e2 := sk.SignDeterministic(m, ctx)
+	// the candidate signature is one that is genuinely valid for the M' that a length byte
+	// wrapping modulo 256 would produce (under the engine the internal verifier is a stub)
+	sig := []byte{1}
+	if !verifrt.Symbolic() {
+		r := cl % 256
+		sig, _ = sk.SignDeterministic(append(append([]byte{}, ctx[r:]...), m...), ctx[:r])
+	}
+	e3 := pk.Verify(m, sig, ctx)
+	if e3 == nil && verifrt.Symbolic() {
+		verifrt.AssertEq(gotVerify, want, "Verify: M' = 0 || len(ctx) || ctx || M")
+	}
+	verifrt.Assert((e1 == nil) == (cl <= 255) && (e2 == nil) == (cl <= 255) && (e3 == nil) == (cl <= 255), "contexts longer than 255 bytes are refused by Sign, SignDeterministic and Verify")
 	verifrt.Reach("end")
 }
